@@ -294,6 +294,8 @@ macro_rules! dispatch_v {
             "u8" => go::<$s, u8>(case, $mk_sig, |x| x as u8, |sv| { let (a, b) = $sigkey(&sv.sig); (a, b, sv.val as u64) }, $out),
             "u64" => go::<$s, u64>(case, $mk_sig, |x| x, |sv| { let (a, b) = $sigkey(&sv.sig); (a, b, sv.val) }, $out),
             "usize" => go::<$s, usize>(case, $mk_sig, |x| x as usize, |sv| { let (a, b) = $sigkey(&sv.sig); (a, b, sv.val as u64) }, $out),
+            // a value type with 16-byte alignment: the stored pair is padded beyond the sum of its fields
+            "u128" => go::<$s, u128>(case, $mk_sig, |x| ((x as u128) << 64) | (x as u128 ^ 0x5a5a), |sv| { let (a, b) = $sigkey(&sv.sig); (a, b, (sv.val >> 64) as u64 ^ ((sv.val as u64) ^ 0x5a5a).rotate_left(7)) }, $out),
             _ => go::<$s, EmptyVal>(case, $mk_sig, |_| EmptyVal::default(), |sv| { let (a, b) = $sigkey(&sv.sig); (a, b, 0) }, $out),
         }
     }};
@@ -358,7 +360,7 @@ impl World for SigstoreWorld {
         };
         let mut c = SigstoreCase {
             s: rng.pick(&["s1", "s2"]).to_string(),
-            v: rng.pick(&["u8", "u64", "usize", "empty"]).to_string(),
+            v: rng.pick(&["u8", "u64", "usize", "empty", "u128"]).to_string(),
             offline,
             bucket_bits,
             max_shard_bits,
@@ -375,6 +377,7 @@ impl World for SigstoreWorld {
             let size = match (c.s.as_str(), c.v.as_str()) {
                 ("s1", "empty") => 8,
                 ("s2", "u8") | ("s2", "u64") | ("s2", "usize") => 24,
+                (_, "u128") => 32,
                 _ => 16,
             };
             let block = *rng.pick(&[1usize << 20, 1 << 20, 1 << 16]);
